@@ -9,6 +9,7 @@ import os
 import re
 
 PRELUDE = '''"""generated host program"""
+import asyncio
 import threading
 import weakref
 
@@ -814,6 +815,124 @@ def method_exc_@I@(v):
             out.append(e.args[0])
     return out, a.bal
 ''', 'method_exc_@I@(@A@)'),
+    ('coro_manual', '''
+class Ready_@I@:
+    def __init__(self, v):
+        self.v = v
+
+    def __await__(self):
+        got = yield ("want", self.v)
+        return got
+
+
+async def co_leaf_@I@(v):
+    first = await Ready_@I@(v)
+    second = await Ready_@I@(first + 1)
+    return first + second
+
+
+async def co_top_@I@(v):
+    trail = []
+    try:
+        total = await co_leaf_@I@(v)
+        trail.append(total)
+        if total % 2:
+            raise HostError("odd", total)
+    except HostError as e:
+        trail.append("caught:%s" % (e.args,))
+    finally:
+        trail.append("fin")
+    return trail
+
+
+def drive_coro_@I@(v):
+    c = co_top_@I@(v)
+    seen = []
+    reply = None
+    try:
+        while True:
+            want = c.send(reply)
+            seen.append(want)
+            reply = want[1] * 2 + @B@
+    except StopIteration as stop:
+        seen.append(stop.value)
+    abandoned = co_leaf_@I@(v)
+    seen.append(abandoned.send(None))
+    abandoned.close()
+    thrown = co_leaf_@I@(v)
+    thrown.send(None)
+    try:
+        thrown.throw(Boom("into coroutine"))
+    except Boom as e:
+        seen.append("boom:%s" % e.args[0])
+    return seen
+''', 'drive_coro_@I@(@A@)'),
+    ('asyncio_tasks', '''
+class AGuard_@I@:
+    def __init__(self, trail):
+        self.trail = trail
+
+    async def __aenter__(self):
+        await asyncio.sleep(0)
+        self.trail.append("enter")
+        return self
+
+    async def __aexit__(self, et, ev, tb):
+        self.trail.append("exit:%s" % (et.__name__ if et else None))
+        return et is HostError
+
+
+async def aticks_@I@(n):
+    try:
+        for i in range(n):
+            await asyncio.sleep(0)
+            yield i * 3
+    finally:
+        STATE["items"].append("aticks-closed-@I@")
+
+
+async def aworker_@I@(name, n, trail):
+    total = 0
+    async for t in aticks_@I@(n):
+        total += t
+        trail.append((name, t))
+        if t >= 6:
+            break
+    return name, total
+
+
+async def asleeper_@I@(trail):
+    try:
+        await asyncio.sleep(3600)
+    except asyncio.CancelledError:
+        trail.append("cancelled")
+        raise
+
+
+async def afail_@I@(v):
+    await asyncio.sleep(0)
+    raise Boom("task failed", v)
+
+
+async def amain_@I@(n):
+    trail = []
+    res = None
+    async with AGuard_@I@(trail):
+        sleeper = asyncio.ensure_future(asleeper_@I@(trail))
+        res = await asyncio.gather(aworker_@I@("a", n, trail), aworker_@I@("b", n + 2, trail),
+                                   afail_@I@(n), return_exceptions=True)
+        sleeper.cancel()
+        try:
+            await sleeper
+        except asyncio.CancelledError:
+            trail.append("joined")
+        raise HostError("swallowed by the guard")
+    return trail, [x if not isinstance(x, BaseException) else (type(x).__name__, x.args) for x in res]
+
+
+def use_asyncio_@I@(n):
+    return asyncio.run(amain_@I@(n))
+''', 'use_asyncio_@I@(@A@ + 1)'),
 ]
 SHAPE_NAMES = [s[0] for s in SHAPES]
 # shapes that are only used when a check asks for them by name (too heavy for every program)
